@@ -56,24 +56,37 @@ def make_op(C, opname):
     return C.operator(opname)
 
 
-def step_run(C, opname, k, mutable, kinds):
-    """run the node evaluator on a node with k marker children; returns (ex, outs)"""
-    children = [C.node(C.operator('Const', C.v_int(1000 + i))) for i in range(k)]
+CHILD_KINDS = ['Const', 'VariableIdentifierWrite', 'VariableIdentifierRead', 'FunctionIdentifier', 'Add', 'Assign', 'RootNode']
+
+
+def child_node(C, kind, i):
+    leaf = lambda j: C.node(C.operator('Const', C.v_int(2000 + j)))
+    if kind == 'Const':
+        return C.node(C.operator('Const', C.v_int(1000 + i)))
+    if kind in ('VariableIdentifierWrite', 'VariableIdentifierRead'):
+        return C.node(C.operator(kind, sstr('v%d' % i)))
+    if kind == 'FunctionIdentifier':
+        return C.node(C.operator(kind, sstr('g%d' % i)), [leaf(i)])
+    if kind == 'RootNode':
+        return C.node(C.operator('RootNode'), [leaf(i)])
+    return C.node(C.operator(kind), [C.node(C.operator('VariableIdentifierWrite', sstr('w'))), leaf(i)])
+
+
+def step_run(C, opname, k, mutable, kinds, child_kind='Const'):
+    """run the node evaluator on a node with k children (of the given operator kind); returns (ex, outs)"""
+    children = [child_node(C, child_kind, i) for i in range(k)]
     top = C.node(make_op(C, opname), children)
     fname = 'eval_with_context_mut' if mutable else 'eval_with_context'
     body = C.method('Node', fname)
     ex = C.new_exec()
 
     def child_stub(ex_, st, c, args):
-        n = ex_.deref_all(args[0])
-        marker = n.fields[0]
+        # the child is identified by its position in the parent's children vector (last step of the reference path)
+        r = args[0]
         idx = None
-        if isinstance(marker.variant, int) and C.meta.enums['Operator'][marker.variant][0] == 'Const':
-            v = marker.fields[0]
-            t = z3.simplify(v.fields[0].t)
-            if z3.is_bv_value(t) and 1000 <= t.as_long() < 1000 + k:
-                idx = t.as_long() - 1000
-        if idx is None:
+        if isinstance(r, Ref) and r.path and r.path[-1][0] == 'index' and r.cell.id == holder['n'].cell.id:
+            idx = r.path[-1][1]
+        if idx is None or not (0 <= idx < k):
             raise Unsupported('recursive evaluation of an unexpected node')
         tag, r = havoc_result(C, ex_, st, 'child%d' % idx, kinds)
         st.log.append(('child', idx, args[1] if len(args) > 1 else None))
@@ -97,6 +110,7 @@ def step_run(C, opname, k, mutable, kinds):
         n = ref_to(st, top)
         c = ref_to(st, ctxv, mut=True)
         holder['ctx'] = c
+        holder['n'] = n
         return [n, c]
     ex2, outs = C.run(body, mkargs, ex=ex)
     return ex, outs, holder
@@ -157,18 +171,19 @@ def check_path(C, o, k, mutable, holder, opname):
 
 
 def unit(u, res):
-    opname, k, mutable, timeout_ms, seed, pid = u
+    opname, k, mutable, timeout_ms, seed, pid = u[:6]
+    child_kind = u[6] if len(u) > 6 else 'Const'
     C = ctx()
     kinds = VALUE_KINDS
     t0 = time.time()
-    ex, outs, holder = step_run(C, opname, k, mutable, kinds)
+    ex, outs, holder = step_run(C, opname, k, mutable, kinds, child_kind)
     res.exec_s += time.time() - t0
     res.feas_queries += ex.nq
     res.bodies |= ex.bodies_used
     res.models |= ex.models_used
     res.paths += len(outs)
     pr = checklib.Prover(res, timeout_ms)
-    name = 'Node::%s on %s with %d children' % ('eval_with_context_mut' if mutable else 'eval_with_context', opname, k)
+    name = 'Node::%s on %s with %d %s children' % ('eval_with_context_mut' if mutable else 'eval_with_context', opname, k, child_kind)
     for i, o in enumerate(outs):
         if k:
             res.nontrivial_paths += 1
@@ -184,7 +199,7 @@ def unit(u, res):
             res.discharged += 1
         else:
             tags = [(n[1], n[2]) for n in o.state.notes if n[0] == 'child']
-            res.sat.append(dict(key='node-evaluator-step: %s' % why.split(',')[0][:60], operator=opname, children=k, mutable=mutable,
+            res.sat.append(dict(key='node-evaluator-step: %s' % why.split(',')[0][:60], operator=opname, children=k, mutable=mutable, child_kind=child_kind,
                                 child_outcomes=tags, why=why, witness='%s: child outcomes %s: %s' % (name, tags, why)))
     if len(res.samples) < 1 and outs:
         o = outs[-1]
@@ -234,7 +249,7 @@ def replay_ce(ce):
                 failed = True
     funcs['x'] = 'log'
     entry = 'optree_mut' if ce['mutable'] else 'optree_ro'
-    text = replay.case_text('c', entry, '%s %d' % (op, k), funcs=list(funcs.items()), vars=[('x', ('Int', 1))])
+    text = replay.case_text('c', entry, '%s %d %s' % (op, k, ce.get('child_kind', 'Const')), funcs=list(funcs.items()), vars=[('x', ('Int', 1))])
     details = []
     bad = False
     for prof in ('dev', 'release'):
@@ -288,7 +303,10 @@ def make_units(tier, seed, pid):
             if k >= 3 and tier == 'quick' and op not in ('Tuple', 'Chain', 'Add', 'And', 'Or', 'Assign', 'FunctionIdentifier', 'RootNode'):
                 continue
             for mutable in (True, False):
-                units.append((op, k, mutable, timeout_ms, seed, pid))
+                for ck in (CHILD_KINDS if k >= 1 else ['Const']):
+                    if tier == 'quick' and k >= 3 and ck != 'Const':
+                        continue
+                    units.append((op, k, mutable, timeout_ms, seed, pid, ck))
     return units, maxk, timeout_ms
 
 
